@@ -42,6 +42,13 @@ func runC04(c *an.Ctx) {
 	c.Floor("C04-R11", 3)
 	c.Borrow("C04-R11", runC20, func(o an.Obligation) bool { return o.Rule == "C20-R5" && strings.Contains(o.Key, "cacheConfig") })
 	// ---- R10: a record taken from the cloner's pools is fully re-initialised (a cached clone never inherits another message's fields)
+	// ---- R12: the cache wrappers forward every argument (key, value, expiration) to the wrapped cache
+	if n := sharedParamsUsed(c, "C04-R12", map[string]string{"agdcache.(Empty": "the no-op cache ignores everything by design", "agdcache.(EmptyManager": "no-op"},
+		"agdcache.", "ecscache.", "dnsserver/cache."); n >= 20 {
+		c.Ok("C04-R12", "cache wrappers use every parameter", token.NoPos, "%d parameters examined", n)
+	} else {
+		c.Und("C04-R12", "cache wrappers use every parameter", token.NoPos, "only %d parameters found", n)
+	}
 	c.Floor("C04-R10", 10)
 	c04ClonerPools(c, "C04-R10")
 	c.Floor("C04-R9", 3)
